@@ -54,6 +54,7 @@ impl<'a> GeneratorState<'a> {
             carry_flag_ok: false,
             acc_in_use: false,
             tmp_in_use: false,
+            acc_is_call_result: false,
             whitespaces_regex: Regex::new(r"\s+").unwrap(),
             deferred_plusplus: Vec::new(),
             current_bank: 0,
